@@ -294,7 +294,7 @@ def classify(inp):
     return inp.get("op", "")
 
 
-BUDGET = dict(quick=200, thorough=1000)
+BUDGET = dict(quick=200, thorough=900)
 
 
 def harnesses(tier):
